@@ -32,12 +32,20 @@ def higher(a, b):
     return a if PRECEDENCE.index(SNAME[a]) >= PRECEDENCE.index(SNAME[b]) else b
 
 
-# index classes of a symbolic axis of length n >= 3:  0 < mid < last (= n-1) < n
-RANK = {"0": 0, "mid": 1, "last": 2, "n": 3}
+# representative concrete shape: the code touches indices only through comparisons with 0 / size
+# and through linearisation, so each axis is represented by first (0), a middle and last (n-1)
+# positions and the out-of-range position n
+SHAPE = {2: (4, 6), 1: (5,)}
+MID = {0: 1, 1: 2}
 
 
-def idx(tag):
-    return Sym("idx", tag)
+class OobAccess(Exception):
+    """the interpreted code performed an UNCHECKED element access outside the array"""
+
+
+def idx(tag, axis=0, ndim=2):
+    n = SHAPE[ndim][axis]
+    return {"0": 0, "mid": MID[axis], "last": n - 1, "n": n}[tag]
 
 
 class RegionRef(Ref):
@@ -84,23 +92,33 @@ class ArrayModel:
         self.log.append((region, v))
 
     def value_at(self, cell):
-        """cell: tuple of '0'|'mid'|'last'"""
+        """cell: tuple of concrete coordinates"""
         cur = self.fill
         for region, v in self.log:
-            if all(r == "all" or r == c for r, c in zip(region, cell)):
+            if region is None:
+                continue
+            ok = True
+            for axis, (r, c) in enumerate(zip(region, cell)):
+                n = SHAPE[self.ndim][axis]
+                if r == "all":
+                    continue
+                if r == "last":
+                    r = n - 1
+                if r != c:
+                    ok = False
+            if ok:
                 cur = v
         return cur
 
 
-def sel_of(v):
-    if isinstance(v, Sym) and v.kind == "idx":
-        if v.tag in ("0", "mid", "last"):
-            return v.tag
-        raise AnalysisBroken("C17: index %r outside the array" % v)
+def sel_of(v, axis, ndim, checked=False):
     if isinstance(v, Sym) and v.kind == "sel":
         return v.tag
-    if v == 0:
-        return "0"
+    if isinstance(v, int) and not isinstance(v, bool):
+        n = SHAPE[ndim][axis]
+        if 0 <= v < n:
+            return v
+        raise OobAccess("index %d on an axis of length %d" % (v, n))
     raise AnalysisBroken("C17: unmodelled index selector %r" % (v,))
 
 
@@ -108,23 +126,6 @@ class StatusWorld(World):
     def __init__(self, ndim):
         self.ndim = ndim
         self.arrays = []
-
-    # symbolic sizes / indices ----------------------------------------------------------------
-    def sym_binop(self, op, a, b):
-        if isinstance(a, Sym) and a.kind == "idx" and a.tag == "n" and op == "-" and b == 1:
-            return idx("last")
-        return World.sym_binop(self, op, a, b)
-
-    def sym_cmp(self, op, a, b):
-        def rank(x):
-            if isinstance(x, Sym) and x.kind == "idx":
-                return RANK[x.tag]
-            if x == 0:
-                return 0
-            raise AnalysisBroken("C17: comparison of %r" % (x,))
-        ra, rb = rank(a), rank(b)
-        return {"<": ra < rb, "<=": ra <= rb, ">": ra > rb, ">=": ra >= rb, "==": ra == rb,
-                "!=": ra != rb}[op]
 
     # library model -------------------------------------------------------------------------------
     def external(self, it, fn, call, frame):
@@ -150,7 +151,7 @@ class StatusWorld(World):
             arr = it.rv(it.eval(args[0], frame))
             if not isinstance(arr, ArrayModel):
                 raise AnalysisBroken("C17: xt::view on %r" % (arr,))
-            sels = tuple(sel_of(it.rv(it.eval(a, frame))) for a in args[1:])
+            sels = tuple(sel_of(it.rv(it.eval(a, frame)), ax, arr.ndim) for ax, a in enumerate(args[1:]))
             return ViewObj(arr, sels)
         obj = call.get("obj")
         if obj is not None:
@@ -168,15 +169,23 @@ class StatusWorld(World):
             if isinstance(o, ArrayModel):
                 if name in ("operator()", "at", "operator[]", "flat"):
                     vals = [it.rv(it.eval(a, frame)) for a in args]
-                    if name == "at" and any(isinstance(v, Sym) and v.kind == "idx" and v.tag == "n"
-                                            for v in vals):
-                        # xt::xcontainer::at() is bounds-checked
-                        raise ThrowEx(call, "std::out_of_range (xt at())", fn.loc(call))
-                    sels = tuple(sel_of(v) for v in vals)
+                    try:
+                        sels = tuple(sel_of(v, ax, o.ndim) for ax, v in enumerate(vals))
+                    except OobAccess as ex:
+                        if name == "at":
+                            # xt::xcontainer::at() is bounds-checked
+                            raise ThrowEx(call, "std::out_of_range (xt at())", fn.loc(call))
+                        raise
                     return RegionRef(o, sels)
                 if name == "shape":
                     if args:
-                        return idx("n")
+                        ax = it.rv(it.eval(args[0], frame))
+                        return SHAPE[o.ndim][ax]
+                if name == "size":
+                    sz = 1
+                    for d in SHAPE[o.ndim]:
+                        sz *= d
+                    return sz
                 if name == "operator=":
                     o.assign(None, it.rv(it.eval(args[0], frame)))
                     return o
@@ -192,22 +201,24 @@ class StatusWorld(World):
 
 
 def run_set_status(fn, ndim, bounds, overrides):
-    """interpret <grid>::set_nodes_status; returns (array model | None, exception text | None)"""
+    """interpret <grid>::set_nodes_status; returns (array model | None | "oob", exception text)"""
     w = StatusWorld(ndim)
     it = Interp(w)
     if ndim == 2:
         bs = Obj("fastscapelib::raster_boundary_status",
                  {"left": bounds[0], "right": bounds[1], "top": bounds[2], "bottom": bounds[3]})
-        this = Obj(fn.cls, {"m_shape": PyVec([idx("n"), idx("n")]), "m_bounds_status": bs,
-                            "m_nodes_status": None})
+        this = Obj(fn.cls, {"m_shape": PyVec(list(SHAPE[2])), "m_size": SHAPE[2][0] * SHAPE[2][1],
+                            "m_bounds_status": bs, "m_nodes_status": None})
     else:
         bs = Obj("fastscapelib::profile_boundary_status", {"left": bounds[0], "right": bounds[1]})
-        this = Obj(fn.cls, {"m_shape": PyVec([idx("n")]), "m_size": idx("n"), "m_bounds_status": bs,
+        this = Obj(fn.cls, {"m_shape": PyVec(list(SHAPE[1])), "m_size": SHAPE[1][0], "m_bounds_status": bs,
                             "m_nodes_status": None})
     try:
         it.call_fn(fn, this, [dict(overrides)])
     except ThrowEx as ex:
         return None, ex.text
+    except OobAccess as ex:
+        return "oob", str(ex)
     res = this.fields.get("m_nodes_status")
     if not isinstance(res, ArrayModel):
         raise AnalysisBroken("C17: m_nodes_status was not assigned from the composed array")
@@ -216,11 +227,13 @@ def run_set_status(fn, ndim, bounds, overrides):
 
 def expected_status(ndim, bounds, cell):
     if ndim == 1:
-        return {"0": bounds[0], "mid": STATUS["core"], "last": bounds[1]}[cell[0]]
+        n = SHAPE[1][0]
+        return bounds[0] if cell[0] == 0 else bounds[1] if cell[0] == n - 1 else STATUS["core"]
     left, right, top, bottom = bounds
     r, c = cell
-    rb = {"0": top, "last": bottom}.get(r)
-    cb = {"0": left, "last": right}.get(c)
+    nr, nc = SHAPE[2]
+    rb = top if r == 0 else bottom if r == nr - 1 else None
+    cb = left if c == 0 else right if c == nc - 1 else None
     if rb is None and cb is None:
         return STATUS["core"]
     if rb is None:
@@ -228,6 +241,14 @@ def expected_status(ndim, bounds, cell):
     if cb is None:
         return rb
     return higher(rb, cb)
+
+
+def cells(ndim):
+    import itertools as _it
+    axes = []
+    for ax, n in enumerate(SHAPE[ndim]):
+        axes.append([0, MID[ax], n - 1])
+    return list(_it.product(*axes))
 
 
 def is_looped(s):
@@ -279,7 +300,7 @@ def run(db, chk):
             if arr is None:
                 bad.append("threw %s" % exc)
             else:
-                for cell in itertools.product(["0", "mid", "last"], repeat=2):
+                for cell in cells(2):
                     got, want = arr.value_at(cell), expected_status(2, b, cell)
                     if got != want:
                         bad.append("%s: %s, documented %s" % (cell, SNAME.get(got, got), SNAME[want]))
@@ -288,26 +309,32 @@ def run(db, chk):
                    detail="; ".join(bad[:3]), sample=(n_sc % 37 == 1), extra={"unit": uname})
         # overrides
         if first:
+            R0, RM, RL, RN = (idx(t, 0) for t in ("0", "mid", "last", "n"))
+            C0, CM, CL, CN = (idx(t, 1) for t in ("0", "mid", "last", "n"))
             sc = [
-                ("looped override", (1, 1, 1, 1), {(idx("mid"), idx("mid")): 3}, "throw"),
-                ("override of a looped border node", (3, 3, 1, 1), {(idx("mid"), idx("0")): 1}, "throw"),
-                ("row index out of range", (1, 1, 1, 1), {(idx("n"), idx("mid")): 1}, "throw"),
-                ("column index out of range", (1, 1, 1, 1), {(idx("mid"), idx("n")): 1}, "throw"),
-                ("valid inner override", (1, 1, 1, 1), {(idx("mid"), idx("mid")): 1}, ("mid", "mid", 1)),
-                ("valid border override", (2, 2, 1, 1), {(idx("mid"), idx("last")): 0}, ("mid", "last", 0)),
-                ("valid corner override", (2, 2, 1, 1), {(idx("0"), idx("0")): 2}, ("0", "0", 2)),
+                ("looped override", (1, 1, 1, 1), {(RM, CM): 3}, "throw"),
+                ("override of a looped border node", (3, 3, 1, 1), {(RM, C0): 1}, "throw"),
+                ("row index out of range", (1, 1, 1, 1), {(RN, CM): 1}, "throw"),
+                ("column index out of range", (1, 1, 1, 1), {(RM, CN): 1}, "throw"),
+                ("column index out of range in the first row (flat index still inside the array)",
+                 (1, 1, 1, 1), {(R0, CN + 2): 2}, "throw"),
+                ("both indices far out of range", (1, 1, 1, 1), {(RN + 9, CN + 9): 1}, "throw"),
+                ("valid inner override", (1, 1, 1, 1), {(RM, CM): 1}, (RM, CM, 1)),
+                ("valid border override", (2, 2, 1, 1), {(RM, CL): 0}, (RM, CL, 0)),
+                ("valid corner override", (2, 2, 1, 1), {(R0, C0): 2}, (R0, C0, 2)),
             ]
             for label, b, ov, want in sc:
                 arr, exc = run_set_status(fn, 2, b, ov)
                 n_sc += 1
                 if want == "throw":
                     ok = arr is None
-                    det = "" if ok else "accepted silently"
+                    det = "" if ok else ("accepted: unchecked access outside the array (%s)" % exc
+                                         if arr == "oob" else "accepted silently")
                 else:
-                    ok = arr is not None and arr.value_at((want[0], want[1])) == want[2]
+                    ok = arr is not None and arr != "oob" and arr.value_at((want[0], want[1])) == want[2]
                     det = "" if ok else ("threw %s" % exc if arr is None else "override lost")
                 chk.ob("C17-N3", "[%s] raster: %s" % (uname, label), ok, where=fn.ploc,
-                       function=fn.bn, construct="override(%s)" % label, detail=det)
+                       function=fn.bn, construct="override(%s)" % label.split(" (")[0], detail=det)
         first = False
 
     # ------------------------------------------------------------------ N1 / N3 profile
@@ -325,31 +352,27 @@ def run(db, chk):
             if arr is None:
                 bad.append("threw %s" % exc)
             else:
-                for cell in (("0",), ("mid",), ("last",)):
+                for cell in cells(1):
                     got, want = arr.value_at(cell), expected_status(1, b, cell)
                     if got != want:
                         bad.append("%s: %s, documented %s" % (cell, SNAME.get(got, got), SNAME[want]))
             chk.ob("C17-N1", "[profile] borders L/R = %s" % "/".join(SNAME[x] for x in b), not bad,
                    where=fn.ploc, function=fn.bn, construct="compose(profile)", detail="; ".join(bad[:3]))
-        sc = [("looped override", (1, 1), {idx("mid"): 3}, "throw"),
-              ("override of a looped border node", (3, 3), {idx("0"): 1}, "throw"),
-              ("index out of range", (1, 1), {idx("n"): 1}, "throw"),
-              ("valid override", (1, 1), {idx("mid"): 2}, ("mid", 2))]
+        P0, PM, PL, PN = (idx(t, 0, 1) for t in ("0", "mid", "last", "n"))
+        sc = [("looped override", (1, 1), {PM: 3}, "throw"),
+              ("override of a looped border node", (3, 3), {P0: 1}, "throw"),
+              ("index out of range", (1, 1), {PN: 1}, "throw"),
+              ("index far out of range", (1, 1), {PN + 7: 1}, "throw"),
+              ("valid override", (1, 1), {PM: 2}, (PM, 2))]
         for label, b, ov, want in sc:
-            try:
-                arr, exc = run_set_status(fn, 1, b, ov)
-            except AnalysisBroken as ex:
-                if "outside the array" in str(ex) and want == "throw":
-                    arr, exc = "unchecked", None
-                else:
-                    raise
+            arr, exc = run_set_status(fn, 1, b, ov)
             n_sc += 1
             if want == "throw":
                 ok = arr is None
-                det = "" if ok else "accepted silently (unchecked element access)" if arr == "unchecked" \
-                    else "accepted silently"
+                det = "" if ok else ("accepted: unchecked access outside the array (%s)" % exc
+                                     if arr == "oob" else "accepted silently")
             else:
-                ok = arr is not None and arr != "unchecked" and arr.value_at((want[0],)) == want[1]
+                ok = arr is not None and arr != "oob" and arr.value_at((want[0],)) == want[1]
                 det = "" if ok else "override lost"
             chk.ob("C17-N3", "[profile] %s" % label, ok, where=fn.ploc, function=fn.bn,
                    construct="override(%s)" % label, detail=det)
@@ -456,7 +479,7 @@ def run(db, chk):
                     for p in (encl.params if encl else []):
                         caps[p["d"]] = __import__("fsverif.interp", fromlist=["Cell"]).Cell(want, p["n"])
                     clo = Closure(fn, caps, None)
-                    r = it.rv(it.call_closure(clo, [Sym("grid", "g"), idx("mid")]))
+                    r = it.rv(it.call_closure(clo, [Sym("grid", "g"), 3]))
                     res.append((want, have, bool(r)))
             ok = all(r == (w == h) for (w, h, r) in res)
             chk.ob("C17-N4", "[%s] status filter keeps a node iff its status equals the requested one "
@@ -476,68 +499,68 @@ def run(db, chk):
             chk.ob("C17-N5", "%s: filter called with %s only after the bounds test"
                    % (fn.name if not fn.is_ctor else "<ctor>", ix), ok, where=fn.loc(node),
                    function=fn.bn, construct="filter-call(%s)" % ix)
-    # single increment per step + bounded interpretation
+    # bounded exhaustive interpretation through the container's own begin/end/rbegin/rend
     it_fns = {("<ctor>" if f.is_ctor else f.name): f for f in db.fns(unit=u0, pred=lambda f: f.cls == C08.ITER_CLS)}
-    for need in ("<ctor>", "operator++", "operator--"):
+    cont = {f.name: f for f in db.fns(unit=u0, pred=lambda f: f.cls == "fastscapelib::grid_nodes_indices"
+                                      and not f.is_ctor)}
+    for need in ("operator++", "operator--", "operator*"):
         if need not in it_fns:
             raise AnalysisBroken("C17-N5: iterator %s not instantiated" % need)
+    for need in ("begin", "end", "rbegin", "rend"):
+        if need not in cont:
+            raise AnalysisBroken("C17-N5: grid_nodes_indices::%s not instantiated" % need)
+    import copy as _copy
     bad = []
     n_it = 0
     for n in range(0, 6):
         for pattern in itertools.product([False, True], repeat=n):
             n_it += 1
 
-            class GW(World):
+            class GW2(World):
                 def before_call(self, it, f2, call, callee, frame):
                     if callee.bn.endswith("::size"):
                         return n
                     return NOT_HANDLED
-            filt = Closure(None, {}, None)
 
-            class Filt:
-                pass
-            # model the std::function filter as a python callable through World.external
-            class GW2(GW):
                 def external(self, it, f2, call, frame):
                     if call.get("bn") == "std::function::operator()":
                         i = it.rv(it.eval(call["a"][1], frame))
                         if not isinstance(i, int) or i < 0 or i >= n:
                             raise ThrowEx(call, "filter called out of bounds with %r (size %d)" % (i, n), f2.loc(call))
                         return pattern[i]
+                    if call.get("k") == "construct" and call.get("cls") == "std::reverse_iterator":
+                        base = it.rv(it.eval(call["a"][0], frame))
+                        return Obj("std::reverse_iterator", {"base": _copy.deepcopy(base)})
                     return NOT_HANDLED
             itp = Interp(GW2())
             want = [i for i in range(n) if pattern[i]]
+            container = Obj("fastscapelib::grid_nodes_indices", {"m_grid": Sym("grid", "g"),
+                                                                "m_filter_func": Sym("filter", "f")})
             try:
-                def make(pos):
-                    o = Obj(C08.ITER_CLS, {"m_idx": None, "m_grid": Sym("grid", "g"), "m_filter_func": Sym("filter", "f")})
-                    itp.call_fn(it_fns["<ctor>"], o, [Sym("grid", "g"), Sym("filter", "f"), pos])
-                    return o
-                cur, end = make(0), make(n)
-                got = []
-                steps = 0
-                while cur.fields["m_idx"] != end.fields["m_idx"]:
-                    got.append(cur.fields["m_idx"])
+                cur = itp.rv(itp.call_fn(cont["begin"], container, []))
+                end = itp.rv(itp.call_fn(cont["end"], container, []))
+                got, steps = [], 0
+                while cur.fields["m_idx"] != end.fields["m_idx"] and steps <= n + 2:
+                    got.append(itp.rv(itp.call_fn(it_fns["operator*"], cur, [])))
                     itp.call_fn(it_fns["operator++"], cur, [])
                     steps += 1
-                    if steps > n + 2:
-                        break
-                # reverse
-                rgot = []
-                cur2, beg = make(n), make(0)
-                steps = 0
-                while cur2.fields["m_idx"] != beg.fields["m_idx"]:
-                    itp.call_fn(it_fns["operator--"], cur2, [])
-                    rgot.append(cur2.fields["m_idx"])
+                rcur = itp.rv(itp.call_fn(cont["rbegin"], container, []))
+                rend = itp.rv(itp.call_fn(cont["rend"], container, []))
+                rgot, steps = [], 0
+                while rcur.fields["base"].fields["m_idx"] != rend.fields["base"].fields["m_idx"] and steps <= n + 2:
+                    tmp = _copy.deepcopy(rcur.fields["base"])       # *rit  ==  *--copy(base)
+                    itp.call_fn(it_fns["operator--"], tmp, [])
+                    rgot.append(itp.rv(itp.call_fn(it_fns["operator*"], tmp, [])))
+                    itp.call_fn(it_fns["operator--"], rcur.fields["base"], [])   # ++rit == --base
                     steps += 1
-                    if steps > n + 2:
-                        break
                 if got != want or rgot != list(reversed(want)):
                     bad.append((n, pattern, got, rgot))
             except ThrowEx as ex:
                 bad.append((n, pattern, ex.text, None))
     n_sc += n_it
-    chk.ob("C17-N5", "bounded interpretation of the filtered iterator: %d (size, filter pattern) "
-           "cases with size <= 5, forward and reverse" % n_it, not bad,
+    chk.ob("C17-N5", "bounded interpretation of nodes_indices() iteration through begin/end/rbegin/rend: "
+           "%d (size, filter pattern) cases with size <= 5, forward and reverse" % n_it, not bad,
            where=it_fns["operator++"].ploc, function=it_fns["operator++"].bn,
-           construct="bounded-iteration", detail="" if not bad else "first failing case: %r" % (bad[0],))
+           construct="bounded-iteration", detail="" if not bad else
+           "first failing case: size %r filter %r: forward %r, reverse %r" % bad[0])
     chk.count_scenarios(n_sc, True)
